@@ -1,6 +1,7 @@
 import MicroHttp.Props.C01
 import MicroHttp.Props.C01Buffer
 import MicroHttp.Props.C01IO
+import MicroHttp.Props.Tables
 #print axioms MicroHttp.C01.tryRead_err
 #print axioms MicroHttp.C01.tryRead_eof
 #print axioms MicroHttp.C01.tryRead_refines
@@ -17,3 +18,4 @@ import MicroHttp.Props.C01IO
 #print axioms MicroHttp.C01.read_respects_input
 #print axioms MicroHttp.C01.output_side_invisible
 #print axioms MicroHttp.C01.history_input_is_reads_only
+#print axioms MicroHttp.Tables.no_shared_state
